@@ -65,6 +65,15 @@ func person(id string) M {
 		"following", id+"/following", "liked", id+"/liked", "preferredUsername", id[strings.LastIndex(id, "/")+1:])
 }
 
+// Peer is the id of the i-th generated remote actor; ManyPeers registers n of them as dereferencable persons.
+func Peer(i int) string { return fmt.Sprintf("https://r1.example/u/p%d", i) }
+
+func ManyPeers(a *ap.App, n int) {
+	for i := 0; i < n; i++ {
+		a.PutRemote(Peer(i), person(Peer(i)))
+	}
+}
+
 // BaseWorld builds the standard application state.
 func BaseWorld() *ap.App {
 	a := ap.New()
